@@ -21,6 +21,9 @@ struct Case {
     /// every individual carries two per-case results [10 - v, 2v - 10] (total v): the order of the totals is
     /// the reverse of the lexicographic order of the per-case vectors
     two_case: bool,
+    /// grid width when it is not lcm(1..n): binary tournaments on larger populations draw from the
+    /// ranges n-1 and n only
+    grid: Option<u32>,
 }
 
 fn mk_tournament(k: usize, ctor: u8) -> Tournament {
@@ -45,7 +48,7 @@ fn tournament_case(c: &Case) -> (u64, u64, Option<(String, String)>, usize) {
     // goodness: a score as it is, an error negated (lower is better)
     let g = move |v: i64| if errors { -v } else { v };
     let sel = mk_tournament(c.k, c.ctor);
-    let m = lcm_upto(n as u128) as u32;
+    let m = c.grid.unwrap_or(lcm_upto(n as u128) as u32);
     let mut law: Law<i64> = Law::new();
     let mut pos_law: Law<usize> = Law::new();
     let mut bad: Option<String> = None;
@@ -252,7 +255,7 @@ pub fn run(run: &mut Run) {
             let full = n <= 4 || (n == 5 && k <= 3) || (!quick && n == 6 && k <= 2);
             if full {
                 for values in all_value_vectors(n, &VALUES) {
-                    cases.push(Case { values, k, ctor: 0, errors: false, two_case: false });
+                    cases.push(Case { values, k, ctor: 0, errors: false, two_case: false, grid: None });
                 }
             }
             // every ordering of n distinct values (positions matter to a sampler, values to the law)
@@ -262,15 +265,23 @@ pub fn run(run: &mut Run) {
                 permutations(&mut perm, 0, &mut all);
                 for values in all {
                     if !full || n >= 4 {
-                        cases.push(Case { values, k, ctor: 0, errors: false, two_case: false });
+                        cases.push(Case { values, k, ctor: 0, errors: false, two_case: false, grid: None });
                     }
                 }
             }
             if !full {
                 for values in family(n) {
-                    cases.push(Case { values, k, ctor: 0, errors: false, two_case: false });
+                    cases.push(Case { values, k, ctor: 0, errors: false, two_case: false, grid: None });
                 }
             }
+        }
+    }
+    // binary tournaments (the common configuration) on larger populations: the grid n(n-1) resolves the two
+    // range draws of a sampler of 2 distinct out of n exactly
+    let max_binary = if quick { 24 } else { 48 };
+    for n in (max_n + 1)..=max_binary {
+        for values in family(n) {
+            cases.push(Case { values, k: 2, ctor: if n % 2 == 0 { 2 } else { 0 }, errors: n % 3 == 0, two_case: false, grid: Some((n * (n - 1)) as u32) });
         }
     }
     cases.sort_by(|a, b| (a.values.len(), a.k, &a.values).cmp(&(b.values.len(), b.k, &b.values)));
@@ -278,12 +289,12 @@ pub fn run(run: &mut Run) {
     // the other constructors (const-generic size, binary) on the populations of up to 4
     let mut more = vec![];
     for c in cases.iter().filter(|c| c.values.len() <= 4) {
-        more.push(Case { values: c.values.clone(), k: c.k, ctor: 1, errors: false, two_case: false });
-        more.push(Case { values: c.values.clone(), k: c.k, ctor: 0, errors: true, two_case: false });
-        more.push(Case { values: c.values.clone(), k: c.k, ctor: 0, errors: false, two_case: true });
-        more.push(Case { values: c.values.clone(), k: c.k, ctor: 0, errors: true, two_case: true });
+        more.push(Case { values: c.values.clone(), k: c.k, ctor: 1, errors: false, two_case: false, grid: None });
+        more.push(Case { values: c.values.clone(), k: c.k, ctor: 0, errors: true, two_case: false, grid: None });
+        more.push(Case { values: c.values.clone(), k: c.k, ctor: 0, errors: false, two_case: true, grid: None });
+        more.push(Case { values: c.values.clone(), k: c.k, ctor: 0, errors: true, two_case: true, grid: None });
         if c.k == 2 {
-            more.push(Case { values: c.values.clone(), k: 2, ctor: 2, errors: false, two_case: false });
+            more.push(Case { values: c.values.clone(), k: 2, ctor: 2, errors: false, two_case: false, grid: None });
         }
     }
     cases.extend(more);
@@ -299,18 +310,20 @@ pub fn run(run: &mut Run) {
             if k.starts_with("machinery/") {
                 run.machinery(w);
             } else {
-                run.violation(k, w, json!({"check":"C07","scenario":"tournament","values":cases[i].values,"k":cases[i].k,"ctor":cases[i].ctor,"errors":cases[i].errors,"two_case":cases[i].two_case}));
+                run.violation(k, w, json!({"check":"C07","scenario":"tournament","values":cases[i].values,"k":cases[i].k,"ctor":cases[i].ctor,"errors":cases[i].errors,"two_case":cases[i].two_case,"grid":cases[i].grid}));
             }
         }
     }
+    crate::bigpop::run_family(run, crate::bigpop::BigMode::Order);
     run.states = cases.len() as u64 + bw;
     run.evaluations += bw;
     run.transitions += bw;
     run.traces_validated = run.evaluations;
     run.distinct_nontrivial = nontrivial;
-    run.rule = "every population of size 1..n over 3 values (ties included) x every tournament size (Tournament::new; for n <= 4 also of_size::<K>(), binary(), individuals whose results are errors, lower is better, and individuals with two per-case results whose lexicographic order is the reverse of the order of their totals); Best/Worst likewise on scores and on errors; all grid word sequences explored on the real Tournament::select; the accumulated winner-value law is compared, as exact rationals, with [C(#<=v,k)-C(#<v,k)]/C(n,k); non-trivial = (population, k) scenarios whose law has more than one outcome".into();
+    run.rule = "every population of size 1..n over 3 values (ties included) x every tournament size (Tournament::new; for n <= 4 also of_size::<K>(), binary(), individuals whose results are errors, lower is better, and individuals with two per-case results whose lexicographic order is the reverse of the order of their totals); Best/Worst likewise on scores and on errors; all grid word sequences explored on the real Tournament::select; the accumulated winner-value law is compared, as exact rationals, with [C(#<=v,k)-C(#<v,k)]/C(n,k); plus large populations (big.population_sizes, 10 structured populations): Best/Worst extremal, tournament sizes {1,2,3,7,11,12,n/3,n/2,n-2,n-1,n,n+1} with the every-stream consequence 'the winner is at least as good as k-1 other members' on all streams of big.streams and the exact uniform law of the size-1 tournament; non-trivial = (population, k) scenarios whose law has more than one outcome".into();
     run.bound("max_population", json!(max_n));
     run.bound("tournament_sizes", json!("every k with lcm(1..n)^k executions within the per-case budget (3e5 quick, 2e7 thorough); full population product for n<=4, n=5 k<=3 (thorough n=6 k<=2); all orderings of distinct values for n<=5; a 9-member population family otherwise"));
+    run.bound("binary_tournament_law_population_sizes", json!(format!("{}..={max_binary} (9-member population family, grid n(n-1))", max_n + 1)));
     run.bound("best_worst_population_sizes", json!("1..=6"));
     run.bound("alphabet", json!("Grid(lcm(1..n))"));
     run.assumptions = vec![
@@ -322,11 +335,14 @@ pub fn run(run: &mut Run) {
 }
 
 pub fn replay(v: &Value) -> bool {
+    if v["big"] == json!(true) {
+        return crate::bigpop::replay(crate::bigpop::BigMode::Order, v);
+    }
     let values: Vec<i64> = v["values"].as_array().map(|a| a.iter().filter_map(|x| x.as_i64()).collect()).unwrap_or_default();
     match v["scenario"].as_str() {
         Some("tournament") => {
             let k = v["k"].as_u64().unwrap_or(1) as usize;
-            let (leaves, _, viol, _) = tournament_case(&Case { values: values.clone(), k, ctor: v["ctor"].as_u64().unwrap_or(0) as u8, errors: v["errors"].as_bool().unwrap_or(false), two_case: v["two_case"].as_bool().unwrap_or(false) });
+            let (leaves, _, viol, _) = tournament_case(&Case { values: values.clone(), k, ctor: v["ctor"].as_u64().unwrap_or(0) as u8, errors: v["errors"].as_bool().unwrap_or(false), two_case: v["two_case"].as_bool().unwrap_or(false), grid: v["grid"].as_u64().map(|g| g as u32) });
             println!("tournament of size {k} on values {values:?}: {leaves} executions explored");
             match viol {
                 Some((key, w)) => {
